@@ -416,6 +416,7 @@ def main_for(mod, argv):
         print("INCONCLUSIVE property=%s reason=codec-build-failed %s" % (mod.PID, str(e)[-500:]))
         return 2
     sdir = scratch_dir(mod.PID)
+    shutil.rmtree(os.path.join(VERIF, "replays", mod.PID), ignore_errors=True)  # replays belong to the run that wrote them
     try:
         if hasattr(mod, "run"):
             return mod.run(a.tier, a.seed, sdir, t0)
